@@ -60,6 +60,16 @@ Header(som, code) == [i \in 1..64 |-> IF i = 1 THEN som ELSE IF i = 2 THEN code 
 EncodeLayout(L, vals) == OverlayFields(Header(23, L.code), L.fields, vals, 1)
 EncodeLayoutSOM(L, som, vals) == OverlayFields(Header(som, L.code), L.fields, vals, 1)
 
+\* acceptable encodings of a value: exactly one, except for the zero date-time
+EncAlts(kind, v) == IF kind = "datetime" /\ v.t = "zero" THEN {Zeros(7), ZeroDTBytesAlt} ELSE {EncField(kind, v)}
+
+\* msg is an encoding of `vals` under layout L with protocol id `som`: every field at its offset in
+\* its encoding, zero in every byte that belongs to no field
+EncodedOK(L, som, vals, msg) ==
+  /\ Len(msg) = 64 /\ msg[1] = som /\ msg[2] = L.code
+  /\ \A k \in 1..Len(L.fields) : Field(msg, L.fields[k].off, Len(EncField(L.fields[k].kind, vals[L.fields[k].name]))) \in EncAlts(L.fields[k].kind, vals[L.fields[k].name])
+  /\ \A i \in 3..64 : (\A k \in 1..Len(L.fields) : ~(i > L.fields[k].off /\ i <= L.fields[k].off + Len(EncField(L.fields[k].kind, vals[L.fields[k].name])))) => msg[i] = 0
+
 \* ---- decoding ----------------------------------------------------------------------------
 (* DecField returns [dom, vals, err]:                                                        *)
 (*   dom  = "in"    the bytes are in the field's domain: `vals` is the singleton of the        *)
